@@ -819,3 +819,8 @@ impl InstrFormat for StdHooks10 {
         Ok(())
     }
 }
+
+#[cfg(truth_verif)]
+pub fn verif_language_hooks(game: Game) -> Box<dyn LanguageHooks> {
+    if Game::Th095 <= game { Box::new(StdHooks10) } else { Box::new(StdHooks06) }
+}
